@@ -72,7 +72,7 @@ def contracted_packet():
 
 def plan(tier, seed):
     if tier == "quick":
-        return [dict(seed=seed, shard=i, n=1200) for i in range(16)]
+        return [dict(seed=seed, shard=i, n=5000) for i in range(16)]
     return [dict(seed=seed, shard=i, n=20000) for i in range(32)]
 
 
